@@ -27,3 +27,14 @@ func Dirty(n, c int) []byte {
 	}
 	return b
 }
+
+// Seed / Keyed stand for maphash: a keyed hash whose key is a field of the structure that uses it.
+type Seed struct{ K uint64 }
+
+func Keyed(seed Seed, s string) uint64 {
+	h := seed.K
+	for i := 0; i < len(s); i++ {
+		h = h*31 + uint64(s[i])
+	}
+	return h
+}
